@@ -496,3 +496,18 @@ func (c *Ctx) ruleLockOrder(rr *RuleRep) {
 		rr.OK("lock-order", token.NoPos, "held->acquired graph over %d acquisitions has %d edges and no cycle: %s", len(la.acquires), nEdges, strings.Join(desc, ", "))
 	}
 }
+
+// ruleSelfDeadlock: no mutex is acquired while the same mutex is already held on that path (sync mutexes are not reentrant).
+func (c *Ctx) ruleSelfDeadlock(rr *RuleRep) {
+	la := c.locks()
+	bad := false
+	for _, ev := range la.acquires {
+		if hm, held := ev.Held[ev.ID]; held {
+			bad = true
+			rr.Bad(FuncName(ev.In.Parent())+"/self-deadlock", ev.In.Pos(), "%s is acquired (mode %c) while it is already held (mode %c) on this path, possibly through a caller: Go mutexes are not reentrant, the goroutine blocks for ever", ev.ID, ev.Mode, hm)
+		}
+	}
+	if !bad {
+		rr.OK("self-deadlock", token.NoPos, "none of the %d lock acquisitions happens with the same lock already held", len(la.acquires))
+	}
+}
